@@ -55,6 +55,10 @@ claim('C14', 'CrossHair solver-closed enumeration of class-strings and TextSlice
       '(values, full-text positions, ignored-text boundaries, longest, nothing skipped)',
       'Bounded by text length over the alphabet partition; all windows [a, b); basic and contextual lexers; str and bytes. The longest/skipped clauses are asserted for spans whose isolated '
       'tokenisation equals the in-context one (others counted).', 'Relational: parse() on the substring is the reference; refsem.posref for coordinates.', '3/C14')
+claim('C16', 'CrossHair symbolic execution of the real embedded-transformer plumbing over lexeme-composed texts for a family of pure transformer classes, and of the four transformer '
+      'classes over symbolic tree shapes with call-recording callbacks',
+      'Bounded by text length (lexemes), transformer family (5 classes: plain, terminal callbacks, v_args inline, v_args tree, partial) and tree size.',
+      'Relational: transform-afterwards is the reference for the embedded run; Transformer is the reference for its variants.', '3/C16')
 claim('C18', 'CrossHair symbolic execution of the real Indenter: one handle_NL step from an arbitrary symbolic state (unbounded stack values, bracket depth, tab_len) and bounded '
       'lazily realised token streams incl. streams after an abandoned/failed earlier stream, vs. CPython\'s stack algorithm and the real tokenize module',
       'The step harness is inductive (one step from an arbitrary valid state covers streams of any length) for stack depth <= 6; streams are bounded in length.',
